@@ -129,6 +129,7 @@ type WDerive struct {
 	GreaseExact   bool     `json:"grease_exact,omitempty"`   // two private parameters with GREASE-shaped IDs (31*N+27) in the list, one of them suppressed by its exact ID
 	DupSuppressed uint64   `json:"dup_suppressed,omitempty"` // a private-use parameter listed several times in the spec and suppressed
 	ISCID         string   `json:"iscid,omitempty"`          // explicit initial_source_connection_id value (hex): goes out as written; the server will reject the connection when it differs from the header's source ID
+	CIDLimit      int      `json:"cid_limit,omitempty"`      // active_connection_id_limit advertised by the spec (2..8; replaces or adds the parameter)
 }
 
 // ---------------------------------------------------------------- router
